@@ -238,3 +238,22 @@ func VerifC26Exporter13(suiteID uint16, master []byte, msgs [][]byte, label stri
 	out, _ = c.exportKeyingMaterial(master, verifC26Hasher(c, msgs))(label, context, n)
 	return out, false
 }
+
+// VerifC26Exporter13Late creates the exporter from a transcript hash fed with msgs, then writes extra
+// into the SAME hash object (as both handshakes do with the client's second flight), and only then
+// exports: RFC 8446 7.5 fixes the exporter master secret to the transcript at creation time.
+func VerifC26Exporter13Late(suiteID uint16, master []byte, msgs, extra [][]byte, label string, context []byte, n int) (out []byte, panicked bool) {
+	defer func() {
+		if recover() != nil {
+			out, panicked = nil, true
+		}
+	}()
+	c := cipherSuiteTLS13ByID(suiteID)
+	transcript := verifC26Hasher(c, msgs)
+	ekm := c.exportKeyingMaterial(master, transcript)
+	for _, m := range extra {
+		transcript.Write(m)
+	}
+	out, _ = ekm(label, context, n)
+	return out, false
+}
